@@ -46,7 +46,7 @@ MUTATORS = ('append', 'extend', 'insert', 'remove', 'pop', 'clear', 'update', 's
 PURE_FUNCS = ('len', 'bool', 'str', 'repr', 'sorted', 'tuple', 'list', 'set', 'frozenset', 'dict', 'iter', 'any',
               'all', 'min', 'max', 'sum', 'enumerate', 'isinstance', 'hasattr', 'getattr', 'id', 'type', 'print',
               'reversed', 'zip', 'map', 'filter', 'int')
-MAX_STATES = 400000
+MAX_STATES = 3000000
 
 INV = {
     'escape': 'no exception - package error or KeyError from the bookkeeping itself - leaves compile()',
@@ -64,6 +64,8 @@ INV = {
                      'compile() returns (unless something failed for it afterwards)',
     'failure-forgotten': 'a module leaves the FAILED map only right after its name was fetched and analysed '
                          'successfully, or a borrower supplied it - never because it is skipped or excluded',
+    'missing-reported': 'a name that every source was asked for and none delivered, and that no borrower supplied, '
+                        'ends missing (or failed) and in the FAILED map - whatever the searchers say about old copies',
     'own-key': 'values of one module (MibInfo, syntax tree, symbol table, generated text, status attributes) are '
                'filed under that module\'s own name, never under another module\'s',
     'abort': 'the first hand-over to the writer happens only when the FAILED map is empty or ignoreErrors is set; '
@@ -126,8 +128,9 @@ def keys_in(v, kinds=('info', 'data', 'tree', 'symtab', 'of')):
 
 
 class Interp(object):
-    def __init__(self, model):
+    def __init__(self, model, merge_classes=True):
         self.model = model
+        self.merge_classes = merge_classes
         r = cr.infer(model)
         self.r = r
         self.fn, self.mod, self.cls = r.fn, r.mod, r.cls
@@ -606,6 +609,9 @@ class Interp(object):
     def leave_loop(self, loop, st, via_break=False):
         key = 'loop:%d' % self.loop_id(loop)
         d = st.pop(key, None)
+        if not via_break and d and d[0] == 'comp' and self.attr_role.get(d[1]) == 'source' and \
+                st.get('env:@popped') == A:
+            st['f:nosource'] = True     # every source was asked for this name and none delivered it
         if via_break and d and d[0] == 'comp' and self.attr_role.get(d[1]) == 'source' and \
                 st.get('env:@popped') == A:
             # the pass over the sources for this name ended with a source that delivered
@@ -1333,6 +1339,7 @@ class Interp(object):
             s = dict(st)
             if isA:
                 s['f:cure'] = True          # a borrower has just supplied this module
+                s['f:borok'] = True
             outs.append(('v', ('tup', ('finfo', 'bor'), ('data', 'bor', tagk(k) or UNK)), s))
             return outs
         if role == 'writer':
@@ -1399,6 +1406,8 @@ class Interp(object):
                 continue
             sg = tuple(any(t in anc for t in ht) for ht in hts) + ((self.fresh_cls in anc) if role == 'searcher'
                                                                   else False,)
+            if not self.merge_classes:
+                sg = name       # thorough tier: every class of pysmi/error.py is raised individually
             sig.setdefault(sg, []).append(name)
         out = sorted(min(v, key=lambda x: (len(self.ancestry[x]), x)) for v in sig.values())
         self._memo[k] = out
@@ -1736,6 +1745,10 @@ class Interp(object):
                        'a module in the FAILED map is reported %s' % word, P, st)
         self.rep.check('failed-pairing', site + '/status', word not in ('failed', 'missing') or in_failed,
                        'a module reported %s is not in the FAILED map' % word, P, st)
+        if st.get('f:nosource') and not st.get('f:parsed') and not st.get('f:borok'):
+            self.rep.check('missing-reported', site, word in ('missing', 'failed') and in_failed,
+                           'a name that no source delivered (and no borrower supplied) is reported %s%s' % (
+                               word, '' if in_failed else ' and is not in the FAILED map'), P, st)
         self.rep.check('stale-failure', site, not (in_failed and st.get('f:fetchok') and not st.get('f:failedlater')),
                        'a name that a source delivered in the end is still in the FAILED map because of an earlier '
                        'source\'s error', P, st)
@@ -1803,20 +1816,21 @@ def _digest(model):
     return h.hexdigest()[:24]
 
 
-def analyse(model):
+def analyse(model, thorough=False):
     """-> Report; memoised per source model and, across the processes of one run of all checks, in
     /verif/.cache keyed by the digest of all consulted files (so the seven properties that share this analysis pay
     for it once; any change to compiler.py, error.py, mibinfo.py or to the analyser recomputes it)"""
     import json
     import os
-    cached = model.__dict__.get('_compile_ts')
+    slot = '_compile_ts_thorough' if thorough else '_compile_ts'
+    cached = model.__dict__.get(slot)
     if cached is not None:
         return cached
     here = os.path.dirname(os.path.dirname(os.path.abspath(__file__)))
     path = None
     if not os.environ.get('VERIF_NO_CACHE'):
         try:
-            path = os.path.join(here, '.cache', 'compile_ts-%s.json' % _digest(model))
+            path = os.path.join(here, '.cache', 'compile_ts-%s%s.json' % (_digest(model), '-t' if thorough else ''))
             if os.path.exists(path):
                 with open(path) as f:
                     d = json.load(f)
@@ -1825,14 +1839,14 @@ def analyse(model):
                 rep.checked = dict(((a, b), c) for a, b, c in d['checked'])
                 rep.viol = dict(((a, b), (m, p)) for a, b, m, p in d['viol'])
                 rep.from_cache = True
-                model.__dict__['_compile_ts'] = rep
+                model.__dict__[slot] = rep
                 return rep
         except Exception:
             path = None
-    it = Interp(model)
+    it = Interp(model, merge_classes=not thorough)
     rep = it.explore()
     rep.from_cache = False
-    model.__dict__['_compile_ts'] = rep
+    model.__dict__[slot] = rep
     if path:
         try:
             os.makedirs(os.path.dirname(path), exist_ok=True)
@@ -1854,9 +1868,10 @@ def analyse(model):
 
 def ts_rule(chk, rule, invs):
     """report the given invariants as obligations of `rule`"""
-    rep = analyse(chk.model)
-    chk.unit('pysmi/compiler.py:MibCompiler.compile [typestate: %d abstract states, %d start configurations]' % (
-        rep.states, rep.configs))
+    rep = analyse(chk.model, thorough=(chk.tier == 'thorough'))
+    chk.unit('pysmi/compiler.py:MibCompiler.compile [typestate: %d abstract states, %d start configurations%s]' % (
+        rep.states, rep.configs, '; every error class raised individually' if chk.tier == 'thorough' else
+        '; error classes no handler tells apart merged'))
     if getattr(rep, 'from_cache', False):
         chk.note('typestate result reused from /verif/.cache (keyed by the digest of every consulted file of the '
                  'repository and of the analyser; computed earlier in this run of the checks)')
